@@ -38,6 +38,7 @@ def main():
     ap.add_argument('src')
     ap.add_argument('--workers', type=int, default=4)
     ap.add_argument('--only', default='')
+    ap.add_argument('--note', default='round 10')
     a = ap.parse_args()
     jobs = queue.Queue()
     for d in sorted(glob.glob(os.path.join(a.src, 'out-C*', '*', 'patch.diff'))):
@@ -72,7 +73,7 @@ def main():
                 if os.path.exists(os.path.join(dd, 'needs.txt')):
                     needs = ' '.join(open(os.path.join(dd, 'needs.txt')).read().split())[:600]
                 cmd = ['/venv/bin/python', f'{vw}/tools/seed_eval.py', prop, name, os.path.join(dd, 'patch.diff'),
-                       os.path.join(dd, 'demo.py'), '--needs', needs, '--note', 'round 10', '--checks', NEIGH.get(prop, '')]
+                       os.path.join(dd, 'demo.py'), '--needs', needs, '--note', a.note, '--checks', NEIGH.get(prop, '')]
                 p = subprocess.run(cmd, capture_output=True, text=True)
                 out = os.path.join(vw, 'seeded', name)
                 if os.path.exists(os.path.join(out, 'meta.json')):
